@@ -538,6 +538,9 @@ func (se *specEnv) field(x SVal, name string, e *SExpr) SVal {
 		if _, err := fmt.Sscanf(name, "%d", &i); err != nil || i >= len(tv) {
 			sfail("bad tuple projection %s", e)
 		}
+		if tt, ok := x.T.(*types.Tuple); ok && i < tt.Len() {
+			return SVal{tv[i], f.subst(tt.At(i).Type())}
+		}
 		if len(se.results) == len(tv) {
 			return se.results[i]
 		}
@@ -852,7 +855,7 @@ func (se *specEnv) call(e *SExpr) SVal {
 			sfail("call: %s cannot be treated as pure here", key)
 		}
 		if tv, isT := v.(TupleVal); isT {
-			return SVal{tv, nil}
+			return SVal{tv, target.Signature.Results()}
 		}
 		return SVal{v, target.Signature.Results().At(0).Type()}
 	case "typeid":
